@@ -39,6 +39,46 @@ LEVEL.update({
             "regenerated table. PARTIAL: archive / directory I/O decided by the oracle on real archives and mem:// "
             "directories.", "§7 C20"),
 })
+LEVEL.update({
+    "C02": ("Lean theorems: typing is a function of the matched one-turn window only; under a unique structure start "
+            "every rotation yields the same verdict, overhangs, target and placeholder (view invariance). EVAL/ASM "
+            "correspondence at every critical rotation + metamorphic oracle incl. registry plasmids.", "§7 C02"),
+    "C04": ("Lean theorems: for cut-aligned structures (kernel-checked for all 85 kit classes on the regenerated table) "
+            "reported overhangs / target / placeholder are the texts at the cut positions of the matched window; "
+            "placeholder ++ target tile the plasmid. EVAL correspondence + string-search oracle.", "§7 C04"),
+    "C05": ("Lean theorems: a signature-typed structure is the generic one with groups 1/3 narrowed; acceptance = generic "
+            "acceptance with signature-matching overhangs on the same window; characterize = first accepting candidate, "
+            "failure iff none; kit and enzyme tables kernel-checked. EVAL/CHAR correspondence + oracle.", "§7 C05"),
+    "C07": ("Lean theorems: for every vector, module list, citation state, fault position and outcome the inputs come back "
+            "exactly as they were (restore o snapshot undoes dereference); second call and retry equal a first call. ASM "
+            "correspondence with deep snapshots over call sequences.", "§7 C07"),
+    "C08": ("Lean theorems on feature transport through rotation, slicing and concatenation (denotation modulo n). ASM "
+            "correspondence with annotated inputs + positional oracle.", "§7 C08"),
+    "C09": ("Lean theorems: product header (id, name, comment ids), generated source features tile the product (offsets = "
+            "prefix sums, total = length), each fragment occurs verbatim in a rotation of its plasmid, the product is that "
+            "layout. PARTIAL: GenBank round trip is I/O, oracle only.", "§7 C09"),
+    "C10": ("Lean theorems: dereference maps index i to refs[i-1]; citations are carried untouched by rotation/slicing/"
+            "concatenation; the product's reference list is duplicate-free, holds exactly the cited references and every "
+            "product citation [j] points to the reference its source denoted; inputs unchanged. ASM correspondence + "
+            "oracle.", "§7 C10"),
+    "C11": ("Lean theorems: next-level site layout of the kit vector structures (kernel-checked on the regenerated table) "
+            "and fit of the next-level generic module pattern on the product text. EVAL/ASM correspondence + two-level "
+            "oracle for the 8 triples.", "§7 C11"),
+    "C12": ("Lean theorems: the generic structures are their own reverse complement with groups 1 and 3 exchanged (all "
+            "geometries), Fits is preserved by reverse complement. EVAL/RC/ASM correspondence + metamorphic oracle.",
+            "§7 C12"),
+    "C17": ("Lean theorems on the error taxonomy: is_valid() false iff the match fails with one of the two "
+            "invalid-sequence errors, accessors then raise that error, an assembly ends with a product or a documented "
+            "error. PARTIAL: 'never an internal exception' is about the Python runtime: decided by the malformed-stream "
+            "correspondence and oracle.", "§7 C17"),
+    "C18": ("Lean theorems: matching, the illegal-site screen and overhang keys only see nucleotide codes; any respelling "
+            "of vector and modules gives the same error (class and stall overhang) or a product equal up to case with "
+            "identical features/provenance (full congruence through assemble). EVAL/ASM correspondence + metamorphic "
+            "oracle.", "§7 C18"),
+    "C19": ("Lean theorem: replacing modules by valid modules with the same two overhangs succeeds again along the same "
+            "chain; both products are the chain's fragments + the same vector fragment, differing only in the replaced "
+            "segments. ASM correspondence + segment-wise oracle.", "§7 C19"),
+})
 NOTE = ("Trusted: Lean 4.33 kernel (+ propext, Classical.choice, Quot.sound), the hand-written model as far as the "
         "regenerated tables and the correspondence check show on each run, harness/extract.py, harness/impl.py, "
         "Model/Wire.lean, Biopython 1.88 / CPython 3.12 semantics of re, SeqRecord, locations. See DESIGN.md §9.")
@@ -49,7 +89,10 @@ def main():
     checks, na = [], []
     for p in props:
         pid = p["id"]
-        if os.path.exists(os.path.join(HERE, "props", pid.lower() + ".py")) and pid in LEVEL:
+        import importlib
+        mod = importlib.import_module("props." + pid.lower()) if os.path.exists(
+            os.path.join(HERE, "props", pid.lower() + ".py")) else None
+        if mod is not None and getattr(mod, "THEOREMS", []) and pid in LEVEL:
             text, ref = LEVEL[pid]
             checks.append({
                 "property_id": pid,
